@@ -17,7 +17,7 @@ from . import c20
 
 ID = "C11"
 RULE = ("clean motif networks from the harness builder: families {2-clique}, {2-,3-clique}, {2-,4-clique}, {3-clique, 4-cycle}, {2-clique, 5-cycle}, "
-        "{2-clique, 6-cycle}, K4 ('diamond'), and a two-name custom motif (4-cycle with a chord: outer/inner edges); 2..4 joint-degree classes, N 20..80 "
+        "{2-clique, 6-cycle}, K4 ('diamond'), and custom motifs with two edge names (4-cycle with a chord: outer/inner edges; wedges a-x-b-y-c, alone and next to 2-cliques); 2..4 joint-degree classes, N 20..80 "
         "(quick) / up to 400 (thorough), on average >= 2 motifs per vertex, ids shuffled or sorted by class; full-support targets (uniform, product of "
         "marginals, assortative mix); parameters: limits omitted / CONVERGENCE_LIMIT in {0,1,5,50,500,5000} / SEARCH_LIMIT in {1,5,25}; 1 seed per case; 30% of the cases then point the SAME rewiring object at another network/target through its setters and rewire again; "
         "non-trivial = >= 10 accepted swaps and (>= 2 topologies or a corner of >= 2 edges); distinct = SHA-1 of (network, target, parameters, seed)")
@@ -39,6 +39,9 @@ FAMILIES = {
     "c2cyc6": [("2-clique", "clique", 2), ("6-cycle", "cycle", 6)],
     "k4": [("diamond", "diamond", 4)],
     "two-name": [("2-clique", "clique", 2), (["d-outer"] * 4 + ["d-inner"], "chord", 4)],
+    # wedge a -x- b -y- c: the middle vertex's corner carries one edge of each name
+    "wedge": [(["w-x", "w-y"], "path", 3)],
+    "c2wedge": [("2-clique", "clique", 2), (["w-x", "w-y"], "path", 3)],
 }
 
 
@@ -216,7 +219,7 @@ def run_case(case):
         extra[TN.CONVERGENCE_LIMIT] = rng.choice([0, 1, 5, 50, 50, 500, 500, 5000 if case.get("big") else 200])
         if rng.random() < 0.6:
             extra[TN.SEARCH_LIMIT] = rng.choice([1, 5, 25])
-    if fam == "two-name":
+    if fam in ("two-name", "wedge", "c2wedge"):
         res.count("two_name_runs")
     base = {"family": fam, "N": N, "classes": classes, "target": kind, "motifs": info["motifs"], "edges": G.number_of_edges(),
             "params": {str(k.value): v for k, v in extra.items()}, "seed": case["seed"]}
